@@ -987,7 +987,7 @@ def main():
     hunt = {}
     (tried, hits) = hunt_tstr16(120000 if quick else 95 ** 3)
     hunt['tstr16'] = dict(tried=tried, hits=len(hits), first=[h.hex() for h in hits[:3]])
-    (tried2, hits2) = hunt_nonshortest16(200000 if quick else 4000000)
+    (tried2, hits2) = hunt_nonshortest16(1400000 if quick else 65280 * 256)
     hunt['nonshortest16 (19 01 xx -> 19 00 xx)'] = dict(tried=tried2, hits=len(hits2), first=[list(h) for h in hits2[:3]])
     (tried3, hits3) = hunt_nonshortest16_k1(100000 if quick else 65280 * 16)
     hunt['nonshortest16 (18 2x -> 18 0x)'] = dict(tried=tried3, hits=len(hits3), exhaustive=(tried3 == 65280 * 16),
